@@ -37,7 +37,9 @@ RULE = ("cases = random argument trees (attrs instances of 19 classes at every p
         "plain subclass of a hashable class; and attrs classes that are ALSO builtin containers -- subclasses of list, "
         "dict, set, tuple (an unhashable and a hashable one), OrderedDict -- carrying members of their own (harness-only "
         "`content`, must be left alone) at every position; list, tuple, namedtuple of 0-3 fields, set, frozenset, dict, OrderedDict, "
-        "int / str / None and opaque objects that must be handed through as they are at every position but set "
+        "int / str / None, their equal-but-distinguishable twins (True/False, float(n), instances of a str subclass: same "
+        "== and hash, other exact class; also several instances of one class holding such twins in the same field) "
+        "and opaque objects that must be handed through as they are at every position but set "
         "membership: attrs class objects, other class objects, objects with a catch-all __getattr__, modules, functions, "
         "object()) to depth 4 (quick) or 5 (thorough), plus targeted streams (namedtuples under retain, "
         "collection / instance dict keys, instances in sets, Attribute-based filters over inherited fields, non-attrs "
@@ -60,6 +62,7 @@ RULE = ("cases = random argument trees (attrs instances of 19 classes at every p
         "depend on; non-trivial = the argument holds a container or instance below the "
         "top level; distinct = distinct JSON case")
 ASSUMPTIONS = [
+    "filter and value_serializer are always passed through counting wrappers: the number of calls is an observable of every call that returns (demanded: once per field occurrence / leaf, no memo); not counted with the substituting serializer",
     "the substituting serializer's replacement holds nothing it would replace again when converted as a field value (else the real call recurses without end) and no hashable attrs instance; objects it returns count as pre-existing objects (`same`)",
     "dict_factory / tuple_factory results other than dict / OrderedDict / tuple / list are not explored (falsy results are: the empty OrderedDict and the empty tuple of a field-less class)",
     "a filter's verdict is read by truthiness: the verdict objects are harness-only variation, the model sees the boolean",
@@ -90,6 +93,7 @@ LEVEL_TEXT = (
     "attrs instance that is also a list / dict / set / tuple is converted by its fields), C13_instance_by_fields (an instance is converted by its field list = has(type(v)) through the MRO, whatever its "
     "class, at both sites and in astuple), C13_keys / "
     "C13_keys_nested, C13_recurse_off_identity, C13_no_instances_left, C13_container_shapes(+_field), "
+    "C13_callbacks_once_per_occurrence (call counts of filter and serializer: compared on every returning call), "
     "C13_fault_propagates (an exception raised by any callback makes the call raise it: nothing swallowed, no partial "
     "result; model side: call counts per callback, tied for every k), C13_callback_counts_flat, "
     "C13_serializer_result_is_used (whatever the serializer returns -- None, falsy, NOTHING, containers, instances -- is "
@@ -290,6 +294,15 @@ class Ser:
         return hash((self.cls, self.fld, self.v))
 
 
+class MyStr(str):
+    """a str subclass: its instances equal (and hash like) the plain str, but their exact class differs"""
+
+
+def _is_leaf(v):
+    """values the model has value tokens for: int / str / None and their equal-but-distinguishable twins"""
+    return v is None or type(v) in (int, str, bool, float, MyStr)
+
+
 def _is_scalar(v):
     """int / str / None of the model"""
     return v is None or type(v) in (int, str)
@@ -303,8 +316,8 @@ def target_hits(target, a, v, reg, fam):
     if "field" in target:
         return a is not None and a.name == target["field"]["name"]
     t = atom_py(target["atomIs"]["a"], reg, fam)
-    if _is_scalar(t):
-        return _is_scalar(v) and type(v) is type(t) and v == t
+    if _is_leaf(t):
+        return _is_leaf(v) and type(v) is type(t) and v == t
     return v is t
 
 
@@ -389,6 +402,12 @@ def atom_py(a, reg=None, fam=None):
         return None
     if "int" in a:
         return a["int"]["n"]
+    if "bool" in a:
+        return bool(a["bool"]["b"])
+    if "float" in a:
+        return float(a["float"]["n"])
+    if "strsub" in a:
+        return MyStr(f"s{a['strsub']['n']}")
     if "obj" in a:
         return obj_py(a["obj"]["kind"], a["obj"]["n"], reg if reg is not None else {}, fam or FAMILY0)
     n = a["str"]["n"]
@@ -404,8 +423,15 @@ _STR = re.compile(r"^s(\d+)$")
 def py_atom(v):
     if v is None:
         return "none"
+    if type(v) is bool:
+        return {"bool": {"b": v}}
+    if type(v) is float:
+        return {"float": {"n": int(v)}} if v == int(v) and v >= 0 else {"str": {"n": 999997}}
     if type(v) is int:
         return {"int": {"n": v}}
+    if type(v) is MyStr:
+        m = _STR.match(v)
+        return {"strsub": {"n": int(m.group(1))}} if m else {"str": {"n": 999996}}
     if v == "":
         return {"str": {"n": STR_EMPTY}}
     m = _STR.match(v)
@@ -471,7 +497,7 @@ def build(node, reg, fam=FAMILY0):
             obj = (set if k == "set" else frozenset)(items)
             got = list(obj)
             if len(got) != len(items) or any(
-                (g is not e) and not (_is_scalar(g) and _is_scalar(e) and type(g) is type(e) and g == e)
+                (g is not e) and not (_is_leaf(g) and _is_leaf(e) and type(g) is type(e) and g == e)
                 for g, e in zip(got, items)
             ):
                 raise HarnessError("set iteration order differs from the order listed in the case")
@@ -494,7 +520,7 @@ def to_out(v, reg, fam=FAMILY0):
     """Python value -> `Out` tree JSON"""
     if type(v) is Ser:
         return {"ser": {"cls": v.cls, "fld": v.fld, "v": to_out(v.v, reg, fam)}}
-    if _is_scalar(v):
+    if _is_leaf(v):
         return {"atom": {"a": py_atom(v)}}
     t = type(v)
     rev = reg.get(("rev", id(v)))
@@ -526,8 +552,8 @@ def to_out(v, reg, fam=FAMILY0):
 
 def snapshot(v, fam=FAMILY0):
     """structure + scalars + identity of every container (sets by sorted member snapshots)"""
-    if _is_scalar(v):
-        return ("a", repr(v))
+    if _is_leaf(v):
+        return ("a", type(v).__name__, repr(v))
     t = type(v)
     if t in fam.cid:
         extra = tuple(sorted((k, repr(x)) for k, x in getattr(v, "__dict__", {}).items() if k == "_hv"))
@@ -550,7 +576,7 @@ def snapshot(v, fam=FAMILY0):
 
 def ty_py(t, fam=FAMILY0):
     if isinstance(t, str):
-        return {"int": int, "str": str, "noneType": type(None), "list": list, "tuple": tuple, "set": set,
+        return {"bool": bool, "float": float, "strsub": MyStr, "int": int, "str": str, "noneType": type(None), "list": list, "tuple": tuple, "set": set,
                 "frozenset": frozenset, "dict": dict, "odict": collections.OrderedDict}[t]
     if "ntuple" in t:
         return nt_type(t["ntuple"]["ty"], t["ntuple"]["arity"])
@@ -606,7 +632,7 @@ class FaultBox:
         self.exc = None
 
     def wraps(self, site):
-        return self.wrap_all or site == self.site
+        return self.wrap_all or site == self.site or site in ("filter", "ser")   # these two are always counted
 
     def hit(self, site):
         n = self.counts[site] = self.counts.get(site, 0) + 1
@@ -762,7 +788,11 @@ def observe(case):
             warm_up(objs[::-1], fam)
     before = snapshot(inst, fam)
     rt = None
-    result, fired, res, _ = run_once(case, inst, reg, fam)
+    result, fired, res, box = run_once(case, inst, reg, fam)
+    counted = "ok" in result and not (case["ser"] == "subst" and case["api"] == "asdict")
+    filter_calls = box.counts.get("filter", 0) if counted and case["filter"] != "none" else None
+    ser_calls = (box.counts.get("ser", 0)
+                 if counted and case["api"] == "asdict" and case["ser"] not in ("off", "subst") else None)
     if roundtrip_applies(case):
         if res is None:
             rt = False
@@ -773,10 +803,11 @@ def observe(case):
                 rt = False
     stable = True
     if cfg.get("twice"):
-        result2, fired2, _, _ = run_once(case, inst, reg, fam)
-        stable = fired2 == fired and _canon_sets(result2) == _canon_sets(result)
+        result2, fired2, _, box2 = run_once(case, inst, reg, fam)
+        stable = fired2 == fired and _canon_sets(result2) == _canon_sets(result) and box2.counts == box.counts
     after = snapshot(inst, fam)
-    return {"result": result, "argUnchanged": before == after, "roundtrip": rt, "faultFired": fired, "stable": stable}
+    return {"result": result, "argUnchanged": before == after, "roundtrip": rt, "faultFired": fired, "stable": stable,
+            "filterCalls": filter_calls, "serCalls": ser_calls}
 
 
 def count_calls(case):
@@ -861,6 +892,13 @@ class Gen:
             kind = self.rng.choice(OPAQUE_KINDS)
             n = self.rng.randrange(NCLS if kind == 0 else len(OPAQUE.get(kind, [0, 1, 2])))
             return {"atom": {"a": {"obj": {"kind": kind, "n": n}}}}
+        if self.rng.random() < 0.09:      # equal-but-distinguishable twins of small ints / of strs
+            k = self.rng.random()
+            if k < 0.4:
+                return {"atom": {"a": {"bool": {"b": self.rng.random() < 0.5}}}}
+            if k < 0.8 or nostr:
+                return {"atom": {"a": {"float": {"n": self.rng.randrange(0, 4)}}}}
+            return {"atom": {"a": {"strsub": {"n": self.rng.randrange(0, 12)}}}}
         if r < 0.12:
             return A_NONE
         if r < 0.6 or nostr:
@@ -951,7 +989,7 @@ class Gen:
                 if id(o) in byid:
                     order.append(byid[id(o)])
                 else:       # scalars may come back as another object: match by value
-                    order.append(next(m for m, p in zip(members, objs) if _is_scalar(p) and type(p) is type(o) and p == o))
+                    order.append(next(m for m, p in zip(members, objs) if _is_leaf(p) and type(p) is type(o) and p == o))
             if order == members:
                 return members
             members = order
@@ -963,7 +1001,7 @@ class Gen:
                    [(k, self.value(depth + 1, "member")) for k in keys])
 
 
-TYTAGS = ["int", "str", "noneType", "list", "tuple", "set", "frozenset", "dict", "odict",
+TYTAGS = ["bool", "float", "strsub", "bool", "int", "str", "noneType", "list", "tuple", "set", "frozenset", "dict", "odict",
           {"ntuple": {"ty": 0, "arity": 2}}, {"ntuple": {"ty": 1, "arity": 1}}, {"ntuple": {"ty": 0, "arity": 1}},
           {"cls": {"id": 0}}, {"cls": {"id": 1}}, {"cls": {"id": 5}}, {"cls": {"id": 3}}, {"cls": {"id": 7}},
           {"cls": {"id": 7}}, {"cls": {"id": 8}}, {"cls": {"id": 10}}, {"cls": {"id": 11}}, {"cls": {"id": 13}},
@@ -1043,7 +1081,7 @@ def add_fault(case, rng):
 def _scalars_in(node, acc):
     if "atom" in node:
         a = node["atom"]["a"]
-        if a == "none" or "obj" not in a:
+        if a == "none" or "int" in a or "str" in a:
             acc.append(node)
     elif "inst" in node:
         for _, v in node["inst"]["fields"]:
@@ -1063,7 +1101,7 @@ def _hits_tree(target, fld, node):
     if target == "all":
         return True
     if target == "scalars":
-        return "atom" in node and (node["atom"]["a"] == "none" or "obj" not in node["atom"]["a"])
+        return "atom" in node and (node["atom"]["a"] == "none" or "int" in node["atom"]["a"] or "str" in node["atom"]["a"])
     if "field" in target:
         return fld == target["field"]["name"]
     return "atom" in node and node["atom"]["a"] == target["atomIs"]["a"]
@@ -1141,7 +1179,9 @@ def add_history(case, rng):
 def targeted(g, rng):
     """small hand-shaped arguments around the places where the two conversion sites must agree"""
     v = g.value
-    pick = rng.randrange(14)
+    pick = rng.randrange(16)
+    if pick == 15:
+        pick = 13
     d = 2
     if pick == 0:    # namedtuples nested in collections / namedtuples (retain)
         inner = nt(rng.randrange(2), [v(d, "member") for _ in range(rng.choice([0, 2, 2, 3]))])
@@ -1194,6 +1234,20 @@ def targeted(g, rng):
         return rng.choice([coll("list", [ci(), g.atom()]), coll("tuple", [ci()]), dct("dict", [(g.atom(), ci())]),
                            dct("odict", [(hk, ci())]), coll("list", [dct("dict", [(g.atom(), coll("list", [ci()]))])]),
                            nt(0, [ci(), ci()]), coll("set", [hk]), coll("list", [hk, coll("tuple", [hk])])])
+    if pick == 13:   # several instances of one class whose fields hold equal-but-distinguishable values
+        cls = rng.choice([0, 7, 5, 13, 3])
+        n = rng.choice([0, 1, 1, 2])
+        twins = [A_int(n), {"atom": {"a": {"float": {"n": n}}}}] + ([{"atom": {"a": {"bool": {"b": bool(n)}}}}] if n < 2 else [])
+        st = rng.randrange(12)
+        stw = [A_str(st), {"atom": {"a": {"strsub": {"n": st}}}}]
+        other = g.atom()
+        insts = []
+        for _ in range(rng.choice([2, 3, 4])):
+            vals = [rng.choice(twins) if i == 0 else (rng.choice(stw) if rng.random() < 0.5 else other)
+                    for i in range(len(CLS_FIELDS[cls]))]
+            insts.append(g.mk_inst(cls, rng.randrange(64) if cls in HASHABLE_CLS else None,
+                                   [[f, x] for f, x in zip(CLS_FIELDS[cls], vals)]))
+        return rng.choice([coll("list", insts), coll("tuple", insts), dct("dict", [(A_int(i + 70), x) for i, x in enumerate(insts)])])
     if pick == 10:   # empty containers of every kind
         return coll("list", [coll("tuple", []), coll("list", []), coll("set", []), coll("frozenset", []), nt(0, []),
                              dct("dict", []), dct("odict", []), g.inst(d, cls=4)])
